@@ -9,12 +9,17 @@ structure St where
   window : Nat := 5
   limit : Nat := 1000000
   maxSkew : Nat := 30000000000
+  nilCertGuard : Bool := false
+  checksMessage : Bool := false
+  /-- forged certificates (chunk id ↦ expiry in the signed reference) obtained from the validators -/
+  forged : List (Nat × Nat) := []
   node : Node := Node.init
   blocks : List (Nat × Block) := [(0, genesis)]
 
 def St.cfg (s : St) : Cfg :=
   { U := fun i => ((s.univ.find? (fun e => e.1 == i)).map (·.2)).getD ⟨0, 0, 0, false⟩
-    window := s.window, limit := s.limit, maxSkew := s.maxSkew }
+    window := s.window, limit := s.limit, maxSkew := s.maxSkew
+    nilCertGuard := s.nilCertGuard, checksMessage := s.checksMessage }
 
 def nat? (w : String) : Option Nat := w.toNat?
 
@@ -33,6 +38,11 @@ def sortCerts (l : List Cert) : List Cert := l.foldr insCert []
 
 /-- cert token `7` (honest certificate of chunk 7) or `7x` (same reference, bad signature) -/
 def cert? (s : St) (w : String) : Option Cert :=
+  if w.endsWith "f" then
+    match nat? (w.dropEnd 1).toString with
+    | some i => (s.forged.find? (fun e => e.1 == i)).map (fun e => ⟨i, e.2, true⟩)
+    | none => none
+  else
   let bad := w.endsWith "x"
   let num := if bad then (w.dropEnd 1).toString else w
   match nat? num with
@@ -70,6 +80,25 @@ def step (s : St) (ws : List String) : St × String :=
     | some i, some p, some e, some sz, some v =>
       if known s i || v > 1 then bad else ({ s with univ := s.univ ++ [(i, ⟨p, e, sz, v == 1⟩)] }, "ok")
     | _, _, _, _, _ => bad
+  | ["feature", name, v] =>
+    match nat? v with
+    | some v =>
+      if v > 1 then bad else
+      if name == "nilcertguard" then ({ s with nilCertGuard := v == 1 }, "ok")
+      else if name == "checksmessage" then ({ s with checksMessage := v == 1 }, "ok") else bad
+    | none => bad
+  | ["forge", i, e] =>
+    match nat? i, nat? e with
+    | some i, some e =>
+      if !known s i || s.forged.any (fun x => x.1 == i) then bad else ({ s with forged := s.forged ++ [(i, e)] }, "ok")
+    | _, _ => bad
+  | ["sigreq", i, e, j] =>
+    match nat? i, nat? e, nat? j with
+    | some i, some e, some j =>
+      if !known s i || !known s j then bad else
+      let r := signReq s.cfg s.node.st i e j
+      (setStorage s r.1, match r.2 with | .signed => "signed" | .refused => "refused" | .panic => "panic")
+    | _, _, _ => bad
   | ["cfg", w, l, k] =>
     match nat? w, nat? l, nat? k with
     | some w, some l, some k =>
